@@ -253,14 +253,6 @@ theorem Shape.size_pos {t : Node} (h : Shape t) : 0 < t.size := by
     have := ihl hl
     simp only [size_inner]; omega
 
-/-- Fibonacci numbers `0, 1, 1, 2, 3, 5, …` (computed in linear time). -/
-def fibPair : Nat → Nat × Nat
-  | 0 => (0, 1)
-  | n + 1 => ((fibPair n).2, (fibPair n).1 + (fibPair n).2)
-
-/-- `fib n`. -/
-def fib (n : Nat) : Nat := (fibPair n).1
-
 theorem fib_succ_eq (n : Nat) : (fibPair n).2 = fib (n + 1) := rfl
 
 theorem fib_add_two (n : Nat) : fib (n + 2) = fib n + fib (n + 1) := by
